@@ -130,42 +130,40 @@ def parseT (t : Template) (line : Str) : Except Err (List Val) :=
 
 -- ---------------------------------------------------------------- composite lines
 
-def splitVals (ts : List Template) : List CPart → List Val → Option (List (CPart × List Val))
+/-- the texts of the parts one after the other (`out_pattern.format` of a composite class) -/
+def formatParts (ts : List Template) : List CPart → List Val → Option Str
   | [], [] => some []
   | [], _ :: _ => none
-  | .lit s :: ps, vals => (splitVals ts ps vals).map fun r => (.lit s, []) :: r
+  | .lit s :: ps, vals => (formatParts ts ps vals).map (s.toList ++ ·)
   | .tpl n :: ps, vals =>
     match findTpl ts n with
     | none => none
     | some t =>
       let k := t.fields.length
       if vals.length < k then none
-      else (splitVals ts ps (vals.drop k)).map fun r => (.tpl n, vals.take k) :: r
+      else match formatT t (vals.take k), formatParts ts ps (vals.drop k) with
+        | some a, some b => some (a ++ b)
+        | _, _ => none
 
 def formatC (ts : List Template) (c : Composite) (vals : List Val) : Option Str :=
-  match splitVals ts c.parts vals with
-  | none => none
-  | some parts =>
-    parts.foldlM (fun acc (p, vs) => match p with
-      | .lit s => some (acc ++ s.toList)
-      | .tpl n => match findTpl ts n with
-        | some t => (formatT t vs).map (acc ++ ·)
-        | none => none) []
+  formatParts ts c.parts vals
 
-def parseC (ts : List Template) (c : Composite) (line : Str) : Except Err (List Val) := do
+/-- the components are searched (each over the WHOLE line) in the order the classes do it; the first
+    failure rejects the line -/
+def parseParts (ts : List Template) (line : Str) : List CPart → Except Err (List Val)
+  | [] => pure []
+  | .lit _ :: ps => parseParts ts line ps
+  | .tpl n :: ps =>
+    match findTpl ts n with
+    | none => throw Err.unmodelled
+    | some t => do
+      let vs ← parseT t line
+      let r ← parseParts ts line ps
+      pure (vs ++ r)
+
+def parseC (ts : List Template) (c : Composite) (line : Str) : Except Err (List Val) :=
   if !(c.idents.all fun i => findLit i.toList line) then throw Err.nomatch
-  let mut out : List Val := []
-  -- the components are searched in the order the classes do it; any failure rejects the line
-  for p in c.parts do
-    match p with
-    | .lit _ => pure ()
-    | .tpl n =>
-      match findTpl ts n with
-      | none => throw Err.unmodelled
-      | some t =>
-        let vs ← parseT t line
-        out := out ++ vs
-  pure out
+  else parseParts ts line c.parts
 
 /-- format / parse by template-or-composite name -/
 def formatLine (ts : List Template) (cs : List Composite) (name : String) (vals : List Val) : Option Str :=
@@ -192,26 +190,55 @@ def dispatch (ts : List Template) (cs : List Composite) (order : List String) (v
     | .ok vals => some (k, vals)
     | .error _ => dispatch ts cs rest v line
 
-/-- `importmatch.get_version`; `none` = an exception other than MatchError escapes -/
+/-- where each component's `pattern.search(line)` starts (`m.start()`), in the order of the parts -/
+def offsetsParts (ts : List Template) (line : Str) : List CPart → List (Option Nat)
+  | [] => []
+  | .lit _ :: ps => offsetsParts ts line ps
+  | .tpl n :: ps =>
+    ((findTpl ts n).bind fun t => (searchFrom t.pat line 0).map (·.1)) :: offsetsParts ts line ps
+
+def offsetsLine (ts : List Template) (cs : List Composite) (name : String) (line : Str) : List (Option Nat) :=
+  match findTpl ts name with
+  | some t => [(searchFrom t.pat line 0).map (·.1)]
+  | none => match findComp cs name with
+    | some c => offsetsParts ts line c.parts
+    | none => []
+
+/-- `importmatch.get_version` (repaired: whatever exception an info parser raises, the next parser is
+    tried): the Value of the first info parser (1.0.0, then 0.5.0) that reads the line as an info line
+    whose value is a version; 0.1.0 when there is none -/
 def getVersion (ts : List Template) (line : Str) : Option (Nat × Nat × Nat) :=
-  let try1 (name : String) : Except Err (Option (Nat × Nat × Nat)) :=
+  let try1 (name : String) : Option (Nat × Nat × Nat) :=
     match findTpl ts name with
-    | none => .error .nomatch
+    | none => none
     | some t => match parseT t line with
       | .ok vals => (match getField (t.fields.map (·.1)) vals "Value" with
-        | .ver a b c => .ok (some (a, b, c))
-        | _ => .ok none)
-      | .error e => .error e
+        | .ver a b c => some (a, b, c)
+        | _ => none)
+      | .error _ => none
   match try1 (verName latestVersion ++ "/info") with
-  | .ok (some v) => some v
-  | .error .value => none
-  | .error .unmodelled => none
-  | _ =>
+  | some v => some v
+  | none =>
     match try1 (verName lastVersionV0 ++ "/info") with
-    | .ok (some v) => some v
-    | .error .value => none
-    | .error .unmodelled => none
-    | _ => some (0, 1, 0)
+    | some v => some v
+    | none => some (0, 1, 0)
+
+/-- `importmatch.load_matchfile` up to the list of parsed lines: the version is read from the first line
+    that is not empty, empty lines and repeated lines are dropped (first occurrence kept, `np.unique` +
+    sorted first indices), every remaining line goes through `parse_matchline` with the parser list of the
+    version, lines no parser accepts are dropped.  `none` = no line at all, or `get_version` raises.
+    (`validate_match_ids`, which prunes deletions / insertions with repeated ids, is not part of it.) -/
+def loadFile (ts : List Template) (cs : List Composite) (lines : List Str) :
+    Option ((Nat × Nat × Nat) × List (String × List Val)) :=
+  let nonEmpty := lines.filter (fun l => !l.isEmpty)
+  match lines with
+  | [] => none
+  | l0 :: _ =>
+    match getVersion ts (nonEmpty.head?.getD l0) with
+    | none => none
+    | some v =>
+      let order := if v.1 ≥ 1 then dispatchOrderV1 else dispatchOrderV0
+      some (v, nonEmpty.eraseDups.filterMap (dispatch ts cs order v))
 
 -- ---------------------------------------------------------------- to_v1
 
